@@ -4,7 +4,7 @@ from mirparse import parse_file
 from srcinfo import last_seg
 from engine import strip_generics
 
-_impl_re = re.compile(r'<impl at ([^:>]+):(\d+):\d+: \d+:\d+>')
+_impl_re = re.compile(r'<impl at ([^:>]+):(\d+):(\d+): \d+:\d+>')
 _span_re = re.compile(r'\{(?:closure|coroutine|async block|async closure)@([^}]*?)(?: \(#\d+\))?\}')
 
 
@@ -55,7 +55,7 @@ class MirDB:
         ms = list(_impl_re.finditer(name))
         if ms:
             m = ms[-1]
-            impl = self.si.impl_at(m.group(1), int(m.group(2)))
+            impl = self.si.impl_at(m.group(1), int(m.group(2)), int(m.group(3)))
         method = name.split('::')[-1] if not closure else name
         # crude: last path segment that is not inside <...>
         sg = strip_generics(re.sub(_impl_re, 'IMPL', name))
@@ -160,8 +160,11 @@ class MirDB:
                         return cands[0]
                 return None
             tl = last_seg(trait)
-            return self._find_impl(meth, trait_pred=lambda t: t is not None and last_seg(t) == tl,
-                                   self_pred=lambda s: norm_ty(strip_generics(s)) == norm_ty(strip_generics(selfty)) or last_seg(s) == last_seg(selfty))
+            r = self._find_impl(meth, trait_pred=lambda t: t is not None and last_seg(t) == tl,
+                                self_pred=lambda s: norm_ty(strip_generics(s)) == norm_ty(strip_generics(selfty)) or last_seg(s) == last_seg(selfty))
+            if r is None:
+                r = self._find_macro_impl(meth, tl, last_seg(selfty))
+            return r
         parts = c.split('::')
         if len(parts) >= 2:
             ty, meth = parts[-2], parts[-1]
@@ -195,6 +198,26 @@ class MirDB:
                     cands.append(f)
             except Exception:
                 pass
+        if len(cands) == 1:
+            return cands[0]
+        return None
+
+    def _find_macro_impl(self, meth, trait_last, self_last):
+        """impls written by a macro (`impl Callable for $name`): the header names a macro variable, so the receiver type is
+        taken from the method's own first parameter instead"""
+        cands = []
+        for f in self.by_method.get(meth, []):
+            info = self.info(f)
+            if info['closure'] or not info['impl'] or not f.params:
+                continue
+            trait, selfty = info['impl']
+            if '$' not in (selfty or ''):
+                continue
+            if trait_last is not None and (trait is None or last_seg(trait) != trait_last):
+                continue
+            p0 = re.sub(r'^&(?:mut )?', '', f.params[0][1].strip())
+            if last_seg(p0) == self_last:
+                cands.append(f)
         if len(cands) == 1:
             return cands[0]
         return None
